@@ -218,6 +218,19 @@ CHECKS = {
         "float-vs-exact boundary steps (|tokens-1| < 1e-6 and not provably exact) are grey",
         "DESIGN.md §2 C10",
     ),
+    "C12": (
+        "fault_enumeration",
+        "enumeration of every SQL statement boundary of each operation as injected error and as SIGKILL of a forked "
+        "child + Hypothesis-generated stores/operation sequences/defective import files; dict-model oracle "
+        "(before-or-after), export/import round trip",
+        "sqlite3.connect is wrapped in the check process so that the n-th execute/commit either raises "
+        "OperationalError or kills a forked child; for every n of every operation instance the reopened table must "
+        "equal exactly the state before or exactly the model's state after, failing imports must raise, pins of "
+        "unnamed hosts never change, and export->import into an empty store reproduces host, port, fingerprint and "
+        "first_seen for hostile host names.",
+        "crash points are statement boundaries (not inside SQLite's commit); last_seen not compared",
+        "DESIGN.md §2 C12",
+    ),
 }
 
 PENDING_REASON = "check not built yet in this round (work in progress; technique applies, see DESIGN.md)"
